@@ -1,2 +1,3 @@
 SPECIFICATION Spec
 CONSTANT A = 8
+CONSTANT OpenFindings = {}
